@@ -456,6 +456,101 @@ func c03() []*Ob {
 					}
 				}
 			}},
+		{Prop: "C03", ID: "C03.7", Engine: "SIBLING(mirror)", Floor: 4,
+			Desc: "the two posting-list iterators of a sealed fraction are mirror images: IteratorAsc walks towards lower LID blocks (blockIndex--) and IteratorDesc towards higher ones (blockIndex++); narrowLIDsRange may end the walk (tryNextBlock = false) only on a comparison with the bound that lies ahead in the direction of the walk (minLID for Asc, maxLID for Desc) — ending it on the other bound drops every posting stored in the remaining blocks",
+			Check: func(c *Ctx) {
+				for _, it := range []struct {
+					typ, far, near string
+					step           token.Token
+				}{
+					{"IteratorAsc", "minLID", "maxLID", token.SUB},
+					{"IteratorDesc", "maxLID", "minLID", token.ADD},
+				} {
+					load := c.Fn("(*frac/lids." + it.typ + ").loadNextLIDsChunk")
+					nr := c.Fn("(*frac/lids." + it.typ + ").narrowLIDsRange")
+					if load == nil || nr == nil {
+						continue
+					}
+					// direction of the walk
+					dirOK := false
+					for _, l := range c.P.FindLifted(load, func(in ssa.Instruction) bool {
+						st, ok := in.(*ssa.Store)
+						if !ok {
+							return false
+						}
+						fa, ok := st.Addr.(*ssa.FieldAddr)
+						if !ok {
+							return false
+						}
+						_, f, _, okf := FieldOf(fa)
+						return okf && f == "blockIndex"
+					}) {
+						if bo, ok := l.In.(*ssa.Store).Val.(*ssa.BinOp); ok && bo.Op == it.step {
+							dirOK = true
+							c.Site(l.In.Pos(), "%s walks the blocks with blockIndex %s 1", it.typ, it.step)
+						}
+					}
+					if !dirOK {
+						c.Violation("sibling:"+it.typ+":direction", load.Pos(), "%s no longer moves blockIndex with %s: the mirror rule for its range cut cannot be applied", it.typ, it.step)
+						continue
+					}
+					mentions := func(facts []Fact, field string) bool {
+						for _, f := range facts {
+							bo, ok := f.Cond.(*ssa.BinOp)
+							if !ok {
+								continue
+							}
+							for _, op := range []ssa.Value{bo.X, bo.Y} {
+								if u, ok := op.(*ssa.UnOp); ok && u.Op == token.MUL {
+									if fa, ok := u.X.(*ssa.FieldAddr); ok {
+										if _, fn, _, okf := FieldOf(fa); okf && fn == field {
+											return true
+										}
+									}
+								}
+							}
+						}
+						return false
+					}
+					// every origin of a false second result
+					var origins func(fn *ssa.Function, v ssa.Value, facts []Fact, pos token.Pos, depth int, seen map[ssa.Value]bool)
+					origins = func(fn *ssa.Function, v ssa.Value, facts []Fact, pos token.Pos, depth int, seen map[ssa.Value]bool) {
+						if seen[v] || depth > 6 {
+							return
+						}
+						seen[v] = true
+						switch x := v.(type) {
+						case *ssa.Const:
+							if b, ok := ConstBool(x); ok && !b {
+								if mentions(facts, it.far) {
+									c.Site(pos, "%s ends the block walk on a comparison with %s", it.typ, it.far)
+								} else {
+									c.Violation("sibling:"+it.typ+":stops-on-wrong-bound", pos, "%s.narrowLIDsRange ends the block walk without a comparison with %s (the bound ahead of an iterator that moves with blockIndex %s 1): postings of the token in the remaining LID blocks are never read — totals, aggregations and ids of long posting lists are short", it.typ, it.far, it.step)
+								}
+							}
+						case *ssa.Phi:
+							for i, e := range x.Edges {
+								origins(fn, e, FactsOnEdge(x.Block().Preds[i], x.Block()), x.Block().Preds[i].Instrs[len(x.Block().Preds[i].Instrs)-1].Pos(), depth+1, seen)
+							}
+						case *ssa.Extract:
+							if call, ok := x.Tuple.(*ssa.Call); ok {
+								if h := StaticCallee(call); h != nil && h.Blocks != nil && c.P.InRepo(h) {
+									for _, b := range h.Blocks {
+										if ret, ok := b.Instrs[len(b.Instrs)-1].(*ssa.Return); ok && x.Index < len(ret.Results) {
+											origins(h, RetOperand(ret, x.Index), FactsAt(b), ret.Pos(), depth+1, seen)
+										}
+									}
+								}
+							}
+						}
+					}
+					for _, b := range nr.Blocks {
+						if ret, ok := b.Instrs[len(b.Instrs)-1].(*ssa.Return); ok && len(ret.Results) == 2 {
+							origins(nr, RetOperand(ret, 1), FactsAt(b), ret.Pos(), 0, map[ssa.Value]bool{})
+						}
+					}
+				}
+			}},
 		{Prop: "C03", ID: "C03.6", Engine: "OWN(who-may-read)", Floor: 2,
 			Desc: "the raw MinTIDs column of lids.Table is not comparable with a TID for continued blocks (MinTID is lastMaxTID+1 there); its elements and the IsContinued flags may be read only by GetAdjustedMinTID, through which every lookup (first/last block for a TID, chunk index, next-block test) must go",
 			Check: func(c *Ctx) {
